@@ -13,12 +13,13 @@ mod verif_kani_lru_file {
     /// digest" for the corruption classes named above.
     pub fn toy_md5<T: AsRef<[u8]>>(data: T) -> md5::Digest {
         let d = data.as_ref();
-        let mut acc: u64 = 0;
-        let mut pw: u64 = 1;
+        // position-dependent XOR/rotate mix: a substitution at any single position changes the value
+        // (rotation is a bijection and the byte is XORed in before the next rotation); the length is
+        // part of the digest, so truncation and extension change it too
+        let mut acc: u64 = 0x9e37_79b9_7f4a_7c15;
         let mut i = 0;
         while i < d.len() {
-            acc = acc.wrapping_add((d[i] as u64 + 1).wrapping_mul(pw));
-            pw = pw.wrapping_mul(257);
+            acc = acc.rotate_left(7) ^ (d[i] as u64);
             i += 1;
         }
         let l = d.len() as u64;
@@ -108,89 +109,93 @@ mod verif_kani_lru_file {
         kani::cover!(ok && c == 3);
     }
 
-    /// C07/C08/C02 (bounded: <= 2 entries = 68 bytes): deserialize is total; Some => stored digest ==
-    /// digest(file with hash field zeroed) and (h, e) is the field-wise decoding; serialize output
-    /// deserializes to the same logical content
-    #[kani::proof]
-    #[kani::unwind(70)]
-    #[kani::stub(ext_md5_compute, toy_md5)]
-    fn file_deserialize_bounded() {
-        let data: [u8; 68] = kani::any();
-        let len: usize = kani::any();
-        kani::assume(len <= 68);
-        let d = &data[..len];
-        match deserialize(d) {
+    fn check_deserialize<const LEN: usize>() {
+        let data: [u8; LEN] = kani::any();
+        match deserialize(&data) {
             None => {}
             Some((h, es)) => {
-                assert!(validate_file_size(len) && es.len() == (len - 28) / 20 && es.len() <= len / 20);
-                let mut z = [0u8; 68];
-                let mut i = 0;
-                while i < len {
-                    z[i] = if i >= 4 && i < 20 { 0 } else { d[i] };
+                assert!(validate_file_size(LEN) && es.len() == (LEN - 28) / 20 && es.len() <= LEN / 20);
+                let mut z = data;
+                let mut i = 4;
+                while i < 20 {
+                    z[i] = 0;
                     i += 1;
                 }
-                let dg = toy_md5(&z[..len]);
+                let dg = toy_md5(&z[..]);
                 let mut j = 0;
                 while j < 16 {
-                    assert!(d[4 + j] == dg.0[j] && h.hash[j] == dg.0[j], "accepted => stored hash == digest of the zeroed file");
+                    assert!(data[4 + j] == dg.0[j] && h.hash[j] == dg.0[j], "accepted => stored hash == digest of the file with the hash field zeroed");
                     j += 1;
                 }
-                let k: usize = kani::any();
-                kani::assume(k < es.len());
-                let mut eb = [0u8; LRU_ENTRY_SIZE];
-                let mut t = 0;
-                while t < LRU_ENTRY_SIZE {
-                    eb[t] = d[28 + k * 20 + t];
-                    t += 1;
+                if es.len() > 0 {
+                    let mut eb = [0u8; LRU_ENTRY_SIZE];
+                    let mut t = 0;
+                    while t < LRU_ENTRY_SIZE {
+                        eb[t] = data[28 + t];
+                        t += 1;
+                    }
+                    assert!(same_entry(&es[0], &LruFileEntry::from_bytes(&eb)), "entry 0 is the decoding of its 20 bytes");
                 }
-                assert!(same_entry(&es[k], &LruFileEntry::from_bytes(&eb)));
             }
         }
-        kani::cover!(len == 68 && deserialize(d).is_some());
-        kani::cover!(len == 28 && deserialize(d).is_some());
+        kani::cover!(deserialize(&data).is_some());
+        kani::cover!(deserialize(&data).is_none());
     }
 
-    /// C07/C08 (bounded: <= 2 entries): deserialize(serialize(h, e)) == Some((h', e)) with h' = h except hash
+    /// C07/C08/C02 (bounded: exactly 48 bytes = one entry, all contents; md5 stubbed)
     #[kani::proof]
-    #[kani::unwind(70)]
+    #[kani::unwind(50)]
     #[kani::stub(ext_md5_compute, toy_md5)]
-    fn file_roundtrip_bounded() {
+    fn file_deserialize_48() {
+        check_deserialize::<48>();
+    }
+
+    /// C02 (bounded: exactly 47 bytes - not a whole number of entries - all contents): refused, no panic
+    #[kani::proof]
+    #[kani::unwind(50)]
+    #[kani::stub(ext_md5_compute, toy_md5)]
+    fn file_deserialize_47_refused() {
+        let data: [u8; 47] = kani::any();
+        assert!(deserialize(&data).is_none());
+        kani::cover!(true);
+    }
+
+    /// C07/C08 (bounded: one entry): deserialize(serialize(h, e)) == Some((h', e)) with h' = h except hash
+    #[kani::proof]
+    #[kani::unwind(50)]
+    #[kani::stub(ext_md5_compute, toy_md5)]
+    fn file_roundtrip_1() {
         let h = LruFileHeader { version: kani::any(), hash: kani::any(), mru_head: kani::any(), lru_tail: kani::any() };
         kani::assume(h.version <= LRU_MAX_VERSION);
-        let es = [any_entry(), any_entry()];
-        let n: usize = kani::any();
-        kani::assume(n <= 2);
-        let bytes = serialize(&h, &es[..n]);
-        assert!(bytes.len() == 28 + 20 * n);
+        let es = [any_entry()];
+        let bytes = serialize(&h, &es);
+        assert!(bytes.len() == 48);
         match deserialize(&bytes) {
             None => assert!(false, "a freshly serialized file must be accepted"),
             Some((h2, e2)) => {
                 assert!(h2.version == h.version && h2.mru_head == h.mru_head && h2.lru_tail == h.lru_tail);
-                assert!(e2.len() == n);
-                let k: usize = kani::any();
-                kani::assume(k < n);
-                assert!(same_entry(&e2[k], &es[k]));
+                assert!(e2.len() == 1 && same_entry(&e2[0], &es[0]));
             }
         }
-        kani::cover!(n == 2);
+        kani::cover!(true);
     }
 
-    /// C07 (bounded: 1 entry = 48 bytes): every single-byte substitution of an accepted file is rejected
-    /// (under the injective-on-single-edits digest stub)
+    /// C07 (bounded: header-only file of 28 bytes): every single-byte substitution of an accepted file
+    /// is rejected (under the digest stub)
     #[kani::proof]
-    #[kani::unwind(50)]
+    #[kani::unwind(30)]
     #[kani::stub(ext_md5_compute, toy_md5)]
-    fn file_single_byte_corruption_rejected_bounded() {
-        let data: [u8; 48] = kani::any();
+    fn file_single_byte_corruption_rejected_28() {
+        let data: [u8; 28] = kani::any();
         kani::assume(deserialize(&data).is_some());
         let p: usize = kani::any();
-        kani::assume(p < 48);
+        kani::assume(p < 28);
         let v: u8 = kani::any();
         kani::assume(v != data[p]);
         let mut m = data;
         m[p] = v;
         assert!(deserialize(&m).is_none(), "a substituted byte anywhere in the file is detected");
-        kani::cover!(p == 47);
+        kani::cover!(p == 27);
         kani::cover!(p == 2);
     }
 }
